@@ -693,6 +693,9 @@ void GridSequence::setAnisotropicRefinement(TypeDepth type, int min_growth, int 
 
     int level = 0;
     do{
+        #ifdef TASMANIAN_VERIF_HOOKS
+        TSG_VERIF_HOOK("aniso-grow-tick", level, min_growth);
+        #endif
         updateGrid(++level, type, weights, level_limits);
     }while((getNumNeeded() < min_growth) && !saturated());
 }
